@@ -1,0 +1,10 @@
+//go:build verif
+// +build verif
+
+package media
+
+import "github.com/cnotch/ipchub/av/format/hls"
+
+// VerifHls returns the HLS segment generator and playlist of the stream (nil when the stream
+// has no H.264 video) for the verification harness (build tag verif only).
+func (s *Stream) VerifHls() (*hls.SegmentGenerator, *hls.Playlist) { return s.hlsSG, s.hlsPlaylist }
